@@ -91,6 +91,17 @@ class _Continue(Exception):
     pass
 
 
+class _GenStop(Exception):
+    """the consumer left its for-loop over an inlined generator with `break`"""
+
+
+class _CallerExit(Exception):
+    """return / raise of the consumer's loop body, carried through the frames of an inlined generator"""
+
+    def __init__(self, exc: BaseException):
+        self.exc = exc
+
+
 class PathLimit(AnalysisError):
     pass
 
@@ -142,6 +153,7 @@ class Interp:
         self.auto_inline = auto_inline
         self.fork_while = fork_while
         self.inline_stack: List[int] = []
+        self.yield_hooks: List[Any] = []
         self.cur_class: Optional[str] = None
         self.fresh_count: Dict[Sym, int] = {}
         # per-run state
@@ -165,6 +177,12 @@ class Interp:
             if any(x is fn for x in nodes) and "." in q:
                 self.cur_class = q.rsplit(".", 1)[0]
         self.top_fn = fn
+        from . import sym as _sym
+        _sym.NON_OPTIONAL_RETURNS.clear()
+        for q, nodes in self.mod.defs.items():
+            for x in nodes:
+                if isinstance(x, (ast.FunctionDef, ast.AsyncFunctionDef)) and x.returns is not None and ast.unparse(x.returns) in ("bool", "int", "str", "bytes", "float"):
+                    _sym.NON_OPTIONAL_RETURNS.add(q.rsplit(".", 1)[-1])
         paths: List[Path] = []
         prefix: List[bool] = []
         while True:
@@ -288,7 +306,10 @@ class Interp:
         if isinstance(st, ast.Expr):
             v = self._ev(st.value)
             if v[0] == "yield":
-                self.emit("yield", v[1], st)
+                if self.yield_hooks and self.yield_hooks[-1][0] == len(self.frames):
+                    self.yield_hooks[-1][1](v[1])
+                else:
+                    self.emit("yield", v[1], st)
             return
         if isinstance(st, ast.Assign):
             v = self._ev(st.value)
@@ -335,6 +356,8 @@ class Interp:
             return
         if isinstance(st, (ast.For, ast.AsyncFor)):
             it = self._ev(st.iter)
+            if isinstance(st, ast.For) and self._generator_loop(st, it):
+                return
             self.emit("loop", it, st)
             roles = self.loop_roles(it, self.depth) if self.loop_roles else None
             elem = ("elem", it)
@@ -423,6 +446,81 @@ class Interp:
         if isinstance(st, (ast.Pass, ast.Import, ast.ImportFrom, ast.Global, ast.Nonlocal)):
             return
         raise AnalysisError(f"unsupported statement {type(st).__name__} at {self.mod.rel}:{st.lineno}")
+
+    def _generator_loop(self, st: ast.For, it: Sym) -> bool:
+        """`for T in self._gen(...)` / `for T in _gen(...)` over a private generator that is not a unit known to the rules:
+        the generator body is executed in place and the loop body runs at each of its `yield`s (with T bound to the yielded
+        value), so that moving a loop into a generator does not change what the rules see"""
+        if not self.auto_inline or it[0] != "call" or self.frames is None:
+            return False
+        f = it[1]
+        fn = None
+        if f[0] == "n" and f[1].startswith("_") and self.mod.has(f[1]):
+            cands = [x for x in self.mod.defs[f[1]] if isinstance(x, ast.FunctionDef)]
+            fn = cands[0] if len(cands) == 1 else None
+        elif f[0] == "a" and f[1] in (N("self"), N("cls")) and f[2].startswith("_") and self.cur_class and self.mod.has(f"{self.cur_class}.{f[2]}"):
+            cands = [x for x in self.mod.defs[f"{self.cur_class}.{f[2]}"] if isinstance(x, ast.FunctionDef)]
+            fn = cands[0] if len(cands) == 1 else None
+        if fn is None or id(fn) in self.inline_stack or len(self.inline_stack) >= self.max_depth:
+            return False
+        qual = next((q for q, nodes in self.mod.defs.items() if any(x is fn for x in nodes)), None)
+        if qual is None or qual in _known_units().get(self.mod.rel, ()):
+            return False
+        if not any(isinstance(x, ast.Yield) for x in ast.walk(fn)) or any(isinstance(x, (ast.YieldFrom, ast.Await)) for x in ast.walk(fn)):
+            return False
+        if any(isinstance(x, ast.Assign) and isinstance(x.value, ast.Yield) for x in ast.walk(fn)) or fn.args.vararg or fn.args.kwarg:
+            return False
+        params = [p.arg for p in fn.args.posonlyargs + fn.args.args]
+        argmap: Dict[str, Sym] = {}
+        pos = list(it[2])
+        if params and params[0] in ("self", "cls") and f[0] == "a":
+            argmap[params[0]] = f[1]
+            plist = params[1:]
+        else:
+            plist = params
+        if any(a[0] == "star" for a in pos):
+            return False
+        for p_, a in zip(plist, pos):
+            argmap[p_] = a
+        for k, v in it[3]:
+            if k is not None and k != "#":
+                argmap[k] = v
+        caller_depth = len(self.frames)
+
+        def on_yield(value: Sym) -> None:
+            saved_frames = self.frames[caller_depth:]
+            saved_dd = self.defdepth[caller_depth:]
+            del self.frames[caller_depth:]
+            del self.defdepth[caller_depth:]
+            try:
+                self._assign(st.target, value, st, quiet=True)
+                try:
+                    self._block(st.body)
+                except _Continue:
+                    self.emit("continue", None, st)
+                except _Break:
+                    raise _GenStop()
+                except (_Return, _Raise) as e:
+                    raise _CallerExit(e)
+            finally:
+                self.frames.extend(saved_frames)
+                self.defdepth.extend(saved_dd)
+
+        self.inline_stack.append(id(fn))
+        self.yield_hooks.append((caller_depth + 1, on_yield))
+        try:
+            try:
+                self._run_function(fn, argmap)
+            except _GenStop:
+                self.emit("break", None, st)
+                return True
+            except _CallerExit as ce:
+                raise ce.exc
+        finally:
+            self.yield_hooks.pop()
+            self.inline_stack.pop()
+        self._block(st.orelse)
+        return True
 
     def _try(self, st: ast.Try) -> None:
         # model: the body either completes, or raises one of the handled exception
@@ -859,6 +957,14 @@ class _EvalBuilder(_Builder):
             if i.mod.has(q):
                 cands = [x for x in i.mod.defs[q] if isinstance(x, ast.FunctionDef)]
                 fn = cands[0] if len(cands) == 1 else None
+        elif f[0] == "a" and not (f[2].startswith("__") and f[2].endswith("__")) and not i.mod.has(f[2]):
+            # a method on another object: resolved by name when exactly one class of the module defines it
+            owners = [q for q in i.mod.defs if "." in q and q.rsplit(".", 1)[1] == f[2]]
+            if len(owners) == 1:
+                cands = [x for x in i.mod.defs[owners[0]] if isinstance(x, ast.FunctionDef)]
+                fn = cands[0] if len(cands) == 1 else None
+                if fn is not None and (not fn.args.args or fn.args.args[0].arg != "self"):
+                    fn = None
         if fn is None:
             return None
         qual = next((q for q, nodes in i.mod.defs.items() if any(x is fn for x in nodes)), None)
